@@ -327,6 +327,31 @@ def run_dataset(ctx, method):
             ctx.case('inputs_unmodified', sig)
             if not np.array_equal(ds.measurements, before):
                 ctx.fail('inputs_unmodified', sig, 'cov_from_measurements modified dataset.measurements', wit())
+            # the dataset object lives on and is edited through its public attributes (values rescaled in place, two
+            # trials relabelled): the next estimate describes the dataset as it is now
+            if good:
+                how = gen.pick(rng, ['scale_values', 'swap_labels'])
+                c2 = dict(c)
+                if how == 'scale_values':
+                    ds.measurements *= 2
+                    c2['meas'] = np.asarray(c['meas']) * 2
+                else:
+                    i0 = 0
+                    j0 = next((j for j, h in enumerate(c['obs']) if h != c['obs'][0]), None)
+                    obs2 = list(c['obs'])
+                    if j0 is not None:
+                        obs2[i0], obs2[j0] = obs2[j0], obs2[i0]
+                    ds.obs_descriptors['cond'] = gen.wrap(obs2, c['container'])
+                    c2['obs'] = obs2
+                if not degenerate(c2['meas'], method, c2['obs']):
+                    s2 = dict(sig, reused_object=how)
+                    w2 = lambda **k: dict(meas=c2['meas'], obs=c2['obs'], dof=dof, method=method, after=how, **k)  # noqa: E731
+                    okr, got_r = ctx.guarded('dataset_measurements', s2, N.cov_from_measurements, ds, 'cond', dof=dof,
+                                             method=method, data=w2)
+                    if okr:
+                        ctx.case('dataset_measurements', s2)
+                        check_estimate(ctx, 'dataset_measurements', s2, got_r, ref_resid(c2),
+                                       dof if dof is not None else n - c['n_cond'], method, w2)
             ok2, got_u = ctx.guarded('balanced_agreement', sig, N.cov_from_unbalanced, ds_of(c), 'cond',
                                      dof=dof, method=method, data=wit)
             if ok2:
